@@ -814,8 +814,9 @@ func parseTags(text string, basePos Position) []ast.Tag {
 			}
 		}
 
-		startCol := basePos.Column + 1 + tagStart
-		endCol := basePos.Column + 1 + tagEnd
+		// Columns count UTF-16 code units, offsets count bytes.
+		startCol := basePos.Column + 1 + utf16Len(text[:tagStart])
+		endCol := basePos.Column + 1 + utf16Len(text[:tagEnd])
 
 		tags = append(tags, ast.Tag{
 			Name:  name,
@@ -830,6 +831,15 @@ func parseTags(text string, basePos Position) []ast.Tag {
 	}
 
 	return tags
+}
+
+// utf16Len is the length of s in UTF-16 code units, the unit columns are counted in.
+func utf16Len(s string) int {
+	n := 0
+	for _, r := range s {
+		n += columnWidth(r)
+	}
+	return n
 }
 
 func isValidTagName(name string) bool {
